@@ -125,6 +125,34 @@ def do_run(sid, tier="quick", props=None):
     json.dump(meta, open(os.path.join(d, "meta.json"), "w"), indent=1)
 
 
+def do_runwt(sid, tier="quick", props=None):
+    """Like run, but in a scratch worktree (VERIF_REPO) with evidence redirected: /repo and /verif/evidence stay untouched."""
+    d = os.path.join(SEEDED, sid)
+    meta = json.load(open(os.path.join(d, "meta.json")))
+    props = props or [meta["property"]]
+    wt = "/tmp/seedrun-" + sid
+    sh("git -C /repo worktree remove --force %s" % wt)
+    sh("git -C /repo worktree add -q --detach %s HEAD" % wt)
+    results = {}
+    try:
+        rc, out = sh("git apply %s" % os.path.join(d, "patch.diff"), cwd=wt)
+        if rc != 0:
+            print("patch does not apply:", out)
+            return
+        env = "VERIF_REPO=%s VERIF_EVIDENCE_DIR=/tmp/seedrun-evid VERIF_REPLAYS_DIR=/tmp/seedrun-evid" % wt
+        for pid in props:
+            rc, out = sh("%s timeout 3000 ./verif check %s --tier %s" % (env, pid, tier), cwd=ROOT, timeout=3100)
+            viol = [l for l in out.splitlines() if l.startswith("VIOLATION")]
+            results[pid] = {"exit": rc, "violation": bool(viol), "tail": out.strip().splitlines()[-6:], "mode": "worktree"}
+            print(sid, pid, tier, "exit", rc, "DETECTED" if rc == 1 and viol else "MISSED" if rc == 0 else "INFRA")
+            for l in out.strip().splitlines()[-3:]:
+                print("   ", l[:220])
+    finally:
+        sh("git -C /repo worktree remove --force %s" % wt)
+    meta.setdefault("runs", {})[tier] = results
+    json.dump(meta, open(os.path.join(d, "meta.json"), "w"), indent=1)
+
+
 if __name__ == "__main__":
     a = sys.argv
     if a[1] == "import":
@@ -133,6 +161,8 @@ if __name__ == "__main__":
         do_verify(a[2])
     elif a[1] == "run":
         do_run(a[2], a[3] if len(a) > 3 else "quick", a[4].split(",") if len(a) > 4 else None)
+    elif a[1] == "runwt":
+        do_runwt(a[2], a[3] if len(a) > 3 else "quick", a[4].split(",") if len(a) > 4 else None)
     elif a[1] == "runall":
         for sid in sorted(os.listdir(SEEDED)):
             do_run(sid, a[2] if len(a) > 2 else "quick")
